@@ -248,6 +248,7 @@ def one_table(ctx, world, tno, forced=None):
         modified = False
         type_changed = False
         unknown_data = False
+        held = None        # the value object obtained from / given to the table
         load_tn, load_bytes = cur_tn, cur_bytes
         nact = rng.randrange(0, 4) if forced is None else 1
         for _ in range(nact):
@@ -280,6 +281,7 @@ def one_table(ctx, world, tno, forced=None):
                     unknown_data = True
                     script.append("read -> UnknownData")
                 else:
+                    held = d
                     try:
                         tt = tree_of(ad_loaded_type(load_tn, type_changed, ad))
                         if tt is None:
@@ -309,6 +311,7 @@ def one_table(ctx, world, tno, forced=None):
                     continue
                 nv = cc.gen_value(rng, world, tt, True)
                 ad.data = nv
+                held = nv
                 was_read = True
                 modified = True
                 toks = cc.to_tokens(world, tt, nv)
@@ -353,6 +356,42 @@ def one_table(ctx, world, tno, forced=None):
                                  exc, "err:" + exc))
             stn = sbytes = None
         script.append("save -> %s" % (exc or "ok"))
+        # ---- the same object saved a second time after an in-place edit
+        # made through a reference held from before the first save (the table
+        # is not touched through the API in between)
+        if exc is None and held is not None and kind == "known" \
+                and not type_changed and rng.random() < 0.5 \
+                and mutate_in_place(rng, held):
+            modified = True
+            script.append("edit held value; save again")
+            try:
+                toks = cc.to_tokens(local_world(world, ir), tree_of(stn),
+                                    held)
+            except Exception:   # noqa
+                toks = None
+            if toks is not None:
+                lines.append("setdata " + " ".join(toks))
+                impl.append("ok")
+                lines.append("save")
+                buf2 = io.BytesIO()
+                try:
+                    with core.time_limit(20):
+                        ir.save_protobuf_file(buf2)
+                    stn, sbytes = parse_tables(gtirb, buf2.getvalue(),
+                                               level)["t"]
+                    impl.append("ok %s %s" % (cc.hexs(stn), cc.hexb(sbytes)))
+                    want2 = cc.impl_encode(gtirb, stn, held)
+                    ctx.count("second-save")
+                    if want2 != sbytes:
+                        return fail({"kind": "stale-bytes", "modified": True,
+                                     "second_save": True},
+                                    "table %r saved a second time after an "
+                                    "in-place edit was written with bytes "
+                                    "that are not the encoding of its "
+                                    "current value" % stn)
+                except (Exception, core.ImplTimeout) as e:   # noqa
+                    return fail({"kind": "second-save-raises"},
+                                "second save raised %s" % type(e).__name__)
         ctx.evaluations += 1
         ctx.count("%s:%s%s%s%s" % (kind, "read" if was_read else "untouched",
                                    "+mod" if modified else "",
